@@ -103,6 +103,20 @@ def run_real(ctx, data: bytes):
     except Exception as e:
         obs["write_err"] = errname(e)
         return obs
+    # the loaded file duplicated with .copy() and the DUPLICATE written back: it is the same file "written back by
+    # the library" (seed C16-10: a copy rebuilt from the content lines only loses comment and preprocessor lines)
+    g2 = _path(ctx, "g2")
+    try:
+        C = A.copy()
+        C.write(g2)
+        del C
+        obs["g2"] = open(g2, "rb").read()
+    except Exception as e:
+        obs["g2"] = "raises-" + errname(e)
+    try:
+        os.unlink(g2)
+    except OSError:
+        pass
     del A
     obs["g"] = open(g, "rb").read()
     try:
@@ -151,6 +165,14 @@ def clauses(data: bytes, obs) -> list[str]:
         bad.append("items")
     if hf != hg:
         bad.append("header")
+    if obs.get("g2") != obs["g"]:
+        # (the copy is written by the same writer: byte-identical to the direct write on a correct tree)
+        try:
+            h2, s2 = G.tokenize(G.decode(obs["g2"]))
+            if list(s2) != list(sf) or any(sf[n] != s2.get(n) for n in sf) or h2 != hf:
+                bad.append("copy-then-write")
+        except Exception:
+            bad.append("copy-then-write")
     if obs["viewB"] != view_spec(sf):
         bad.append("view")
     ta, tb = obs["topA"], obs["topB"]
